@@ -10,7 +10,7 @@ use vcore::runner::{Ctx, Report, Violation};
 use vcore::tape::{from_tape, Tape};
 use vcore::tokens::*;
 use vcore::util::{guard, hash64};
-use vcore::wire::WToken;
+use vcore::wire::{WBlock, WKey, WProof, WToken};
 
 #[derive(Clone, Debug, Serialize, Deserialize)]
 pub struct Case {
@@ -134,8 +134,11 @@ pub fn check_variant(kind: &str, idx: usize, variant: &[u8], o: &Original, rep: 
                     continue;
                 }
                 if accv != o.view {
+                    // a re-encoded signature that a later signature has to cover is a different
+                    // failure from the same re-encoding on an uncovered (last, unsealed) one
+                    let covered = kind.starts_with("sig_") && vcore::refcrypto::signature_is_covered(&o.view, rkey_of(&o.root_pub).algorithm(), idx);
                     return Err(v(
-                        format!("accepted:{kind}"),
+                        format!("accepted:{kind}{}", if covered { ":covered-signature" } else { "" }),
                         format!(
                             "{entry} accepted a variant ({kind} at block {idx}) whose signed blocks differ from the original\nvariant: {}\noriginal: {}",
                             hex::encode(variant),
@@ -303,12 +306,143 @@ pub fn test_case_mode(ctx: &Ctx, case: &Case, rep: &mut Report, compare_proof: b
     Ok(())
 }
 
+/// the eight points of small order of the ed25519 curve (canonical encodings): a key for which
+/// signatures can be made without any secret
+const SMALL_ORDER: &[&str] = &[
+    "0100000000000000000000000000000000000000000000000000000000000000",
+    "ecffffffffffffffffffffffffffffffffffffffffffffffffffffffffffff7f",
+    "0000000000000000000000000000000000000000000000000000000000000000",
+    "0000000000000000000000000000000000000000000000000000000000000080",
+    "26e8958fc2b227b045c3f489f2ef98f0d5dfac05d3c63339b13802886d53fc05",
+    "26e8958fc2b227b045c3f489f2ef98f0d5dfac05d3c63339b13802886d53fc85",
+    "c7176a703d4dd84fba3c0b760d10670f2a2053fa2c39ccc64ec7fd7792ac037a",
+    "c7176a703d4dd84fba3c0b760d10670f2a2053fa2c39ccc64ec7fd7792ac03fa",
+];
+
+/// (weak key index, R index, signature version, where the weak key sits: 0 = root, 1 = next key of
+/// the authority block signing a second block)
+type WeakCase = (usize, usize, u64, u8);
+
+/// a token nobody signed: the signature (R, S = 0) verifies under a small-order key with a
+/// cofactor-less or non-strict verification for suitable R
+fn weak_key_case(case: &WeakCase, rep: &mut Report) -> Result<(), Violation> {
+    let (a, r, version, place) = *case;
+    let weak = hex::decode(SMALL_ORDER[a]).unwrap();
+    let mut sig = hex::decode(SMALL_ORDER[r]).unwrap();
+    sig.extend_from_slice(&[0u8; 32]);
+    let payload = {
+        use prost::Message;
+        biscuit_auth::format::schema::Block {
+            symbols: vec!["forged".into()],
+            context: None,
+            version: Some(3),
+            facts_v2: vec![],
+            rules_v2: vec![],
+            checks_v2: vec![],
+            scope: vec![],
+            public_keys: vec![],
+        }
+        .encode_to_vec()
+    };
+    let honest_root = KeyPlan { alg: Alg::Ed, seed: 0xa11ce };
+    let next = KeyPlan { alg: Alg::Ed, seed: 0xb0b };
+    let (bytes, root_bytes) = if place == 0 {
+        // authority block "signed" by the weak root
+        let w = WToken {
+            root_key_id: None,
+            authority: WBlock {
+                block: payload,
+                next_key: vcore::refcrypto::rkey_of(&next.public()).to_wire(),
+                signature: sig,
+                external: None,
+                version: if version == 0 { None } else { Some(version) },
+            },
+            blocks: vec![],
+            proof: WProof::Secret(next.keypair().private().to_bytes().to_vec()),
+        };
+        (w.encode(), weak.clone())
+    } else {
+        // honest authority block whose next key is the weak key; second block "signed" by it
+        let rs = |kp: &KeyPlan| RSecret::from_keypair(&kp.keypair());
+        let mut signer = vcore::refcrypto::RefSigner::new(&rs(&honest_root), &rs(&next), &payload, version, None);
+        let mut w = signer.token.clone();
+        w.authority.next_key = WKey { algorithm: 0, key: weak.clone() };
+        // re-sign the authority block over the weak next key with the honest root
+        let weak_rkey = match RKey::parse(&w.authority.next_key) {
+            Ok(k) => k,
+            Err(_) => {
+                rep.class("weak:next-key-not-a-point");
+                return Ok(());
+            }
+        };
+        w.authority.signature = rs(&honest_root).sign(&if version == 0 { vcore::refcrypto::payload_v0(&payload, &weak_rkey, None) } else { vcore::refcrypto::payload_v1(&payload, &weak_rkey, None, None, version) });
+        w.blocks.push(WBlock {
+            block: payload.clone(),
+            next_key: vcore::refcrypto::rkey_of(&next.public()).to_wire(),
+            signature: sig,
+            external: None,
+            version: if version == 0 { None } else { Some(version) },
+        });
+        w.proof = WProof::Secret(next.keypair().private().to_bytes().to_vec());
+        let _ = &mut signer;
+        (w.encode(), honest_root.public().to_bytes())
+    };
+    rep.evals(1);
+    rep.nontrivial(hash64(case));
+    let root = match guard(|| PublicKey::from_bytes(&root_bytes, biscuit_auth::builder::Algorithm::Ed25519)) {
+        Ok(Ok(k)) => k,
+        Ok(Err(_)) => {
+            rep.class("weak:root-key-refused");
+            return Ok(());
+        }
+        Err(p) => return Err(v(format!("panic:{}", p.site()), p.message)),
+    };
+    let r1 = guard(|| Biscuit::from(&bytes, root).is_ok());
+    let r2 = guard(|| UnverifiedBiscuit::from(&bytes).ok().map(|u| u.verify(root).is_ok()).unwrap_or(false));
+    for (entry, res) in [("from", r1), ("unverified.verify", r2)] {
+        match res {
+            Ok(false) => rep.class("weak:forgery-rejected"),
+            Ok(true) => {
+                return Err(v(
+                    "accepted-forgery-under-small-order-key".into(),
+                    format!(
+                        "{entry} accepted a token nobody signed: {} key {} (small order), signature R = {}, S = 0, version {version}\ntoken {}",
+                        if place == 0 { "root" } else { "next" },
+                        SMALL_ORDER[a],
+                        SMALL_ORDER[r],
+                        hex::encode(&bytes)
+                    ),
+                ))
+            }
+            Err(p) => return Err(v(format!("panic:{}", p.site()), p.message)),
+        }
+    }
+    Ok(())
+}
+
 pub fn run(ctx: &Ctx, replay: Option<&serde_json::Value>) {
     if let Some(r) = replay {
+        if r["sub"].as_str() == Some("weak-keys") {
+            let case: WeakCase = serde_json::from_value(r["case"].clone()).expect("bad replay case");
+            ctx.run_list("weak-keys", &[case], |c, r| weak_key_case(c, r));
+            return;
+        }
         let case: Case = serde_json::from_value(r["case"].clone()).expect("bad replay case");
         ctx.run_list("mutations", &[case], |c, r| test_case(ctx, c, r));
         return;
     }
+    // forgeries that need no secret: small-order ed25519 keys as root or as next key
+    let mut weak = vec![];
+    for a in 0..SMALL_ORDER.len() {
+        for r in 0..SMALL_ORDER.len() {
+            for version in [0u64, 1] {
+                for place in [0u8, 1] {
+                    weak.push((a, r, version, place));
+                }
+            }
+        }
+    }
+    ctx.run_list("weak-keys", &weak, |c, r| weak_key_case(c, r));
     ctx.set_rule("TokenPlan x donor token (independent / same root / sibling attenuation) x every WireMutator kind at every block index + container and byte-level kinds + 4 foreign roots; oracle: an accepted variant must carry exactly the original's signed blocks (or be an earlier legitimate token); non-trivial variant = decodes as protobuf, differs from the original and is not an allowed re-encoding; distinct = (kind, index, block count, algorithm, version)");
     ctx.assume("ed25519-dalek / p256 primitives trusted; forgeries that require breaking them are out of reach");
     ctx.assume("v0 blocks do not bind the previous signature by design; only the statement's 'no accepted variant with different signed blocks' is demanded");
